@@ -15,16 +15,23 @@ HeaderSeqs == { <<>>, <<Hdr(<<72>>, <<118>>)>>, <<Hdr(<<72, 111, 115, 116>>, <<9
                 <<Hdr(<<67, 111, 111, 107, 105, 101>>, <<97, 61, 98, 59, 32, 99>>), Hdr(<<85, 45, 65>>, <<120, 32, 121>>)>>,
                 \* headers that mean something to an HTTP stack are opaque to the parser: a Content-Length smaller than the body, chunked encoding
                 <<Hdr(ContentLength, <<49>>)>>,
+                \* names that differ in upper / lower case only are different names
+                <<Hdr(<<88, 45, 83>>, <<49>>), Hdr(<<120, 45, 115>>, <<50>>)>>,
                 <<Hdr(ContentLength, <<48>>), Hdr(<<84, 114, 97, 110, 115, 102, 101, 114, 45, 69, 110, 99, 111, 100, 105, 110, 103>>, <<99, 104, 117, 110, 107, 101, 100>>)>> }
 Bodies == SeqsUpTo({CR, LF, 0, 97}, IF Quick THEN 4 ELSE 6)
+\* a body that is itself an HTTP message (what follows an interim response in a stream) is a body
+InnerMsg == <<72, 84, 84, 80, 47, 49, 46, 49, 32, 50, 48, 48, 32, 79, 75, 13, 10, 13, 10, 120>>
 Req(m, p, ps, hs, b) == [method |-> m, path |-> p, params |-> ps, headers |-> hs, body |-> b]
 ReqScn == { Req(m, p, <<>>, <<Hdr(<<72>>, <<118>>)>>, <<>>) : m \in Methods, p \in Paths }
      \cup { Req(GET, <<47, 97>>, ps, hs, <<98>>) : ps \in ParamSeqs, hs \in {<<>>, <<Hdr(<<72>>, <<118>>)>>} }
      \cup { Req(POST, <<47, 97>>, <<>>, hs, b) : hs \in HeaderSeqs, b \in {<<>>, <<97>>, <<CR, LF, CR, LF>>} }
      \cup { Req(POST, <<47>>, <<>>, <<Hdr(<<72>>, <<118>>)>>, b) : b \in Bodies }
+     \cup { Req(POST, <<47, 97>>, <<>>, <<Hdr(<<72>>, <<118>>)>>, InnerMsg) }
 Resp(s, r, hs, b) == [status |-> s, reason |-> r, headers |-> hs, body |-> b]
 RespScn == { Resp(s, r, hs, <<97>>) : s \in {0, 99, 200, 404, 999}, r \in {<<79, 75>>, <<120>>}, hs \in HeaderSeqs }
       \cup { Resp(200, <<79, 75>>, <<Hdr(<<72>>, <<118>>)>>, b) : b \in Bodies }
+      \* status codes an HTTP stack treats specially (interim, no content, not modified) are status codes
+      \cup { Resp(st, <<79, 75>>, <<Hdr(<<72>>, <<118>>)>>, b) : st \in {100, 101, 204, 304, 200}, b \in {InnerMsg, <<97>>, <<>>} }
 Toks == { GET, <<47, 97>>, HTTP11, <<50, 48, 48>>, <<79, 75>>, <<104, 116, 116, 112, 47, 50>> }
 StartScn == SeqsUpTo(Toks, IF Quick THEN 3 ELSE 4)
 =============================================================================
